@@ -163,7 +163,7 @@ def avr_ld(obj, s, d, _flg):
     dst = env.R[d]
     obj.operands = [dst, env.Z] if s == 0 else [env.Z, dst]
     obj.type = type_data_processing
-    obj.misc["mem"] = True
+    obj.misc["mem"] = s + 1
     obj.misc["flg"] = _flg
 
 
@@ -173,7 +173,7 @@ def avr_ld(obj, q, q2, s, d, q3):
     dst = env.R[d]
     off = env.cst((q << 5) + (q2 << 3) + q3, 16)
     obj.operands = [dst, env.Z + off] if s == 0 else [env.Z + off, dst]
-    obj.misc["mem"] = True
+    obj.misc["mem"] = s + 1
     obj.type = type_data_processing
 
 
